@@ -29,7 +29,7 @@ class D(RenderDriver):
         ("picosvg.svg_transform", "Affine2D.rect_to_rect"),
     )
     nt_floor = {"quick": 150, "thorough": 4000}
-    feature_floors = {"use": 50, "nested_svg": 30, "group_transform": 50, "use_of_group": 5, "nested_viewbox": 10, "display_none": 5}
+    feature_floors = {"judged.nested_in_nested": 50, "judged.nested_svg": 200, "judged.nested_viewbox": 150, "judged.use": 80, "judged.use_of_group": 12, "judged.display_none": 40, "judged.group_transform": 150, "judged.extreme_scale": 8, "judged.tf_matrix": 100, "judged.tf_rotate": 200, "judged.tf_scale": 200, "judged.tf_translate": 200, "use": 50, "nested_svg": 30, "group_transform": 50, "use_of_group": 5, "nested_viewbox": 10, "display_none": 5}
 
     def gen_doc(self, rng):
         text, f, root = gd.structural(rng, max_depth=rng.choice((2, 3, 3, 4)))
